@@ -2,7 +2,6 @@ package c20
 
 import (
 	"fmt"
-	"sort"
 	"strings"
 
 	"github.com/blevesearch/bleve/v2"
@@ -823,55 +822,6 @@ func elementHitsShape(q *Q) bool {
 	}
 	walk(q)
 	return found
-}
-
-// shapeSig abstracts a query to operator kinds and nesting paths (values and clause order
-// dropped); it keys violations that no known shape explains.
-func shapeSig(q *Q) string {
-	l := func(qs []*Q) string {
-		seen := map[string]bool{}
-		var s []string
-		for _, x := range qs {
-			g := shapeSig(x)
-			if !seen[g] {
-				seen[g] = true
-				s = append(s, g)
-			}
-		}
-		sort.Strings(s)
-		return strings.Join(s, ",")
-	}
-	switch q.Kind {
-	case "term":
-		p := pathOf(q.Field)
-		if p == "" {
-			return "top"
-		}
-		return p
-	case "all":
-		return "*"
-	case "conj":
-		return "conj(" + l(q.Subs) + ")"
-	case "disj":
-		m := q.Min
-		if m < 1 {
-			m = 1
-		}
-		return fmt.Sprintf("disj%d(%s)", m, l(q.Subs))
-	case "bool":
-		s := "bool("
-		if len(q.Must) > 0 {
-			s += "m{" + l(q.Must) + "}"
-		}
-		if len(q.Should) > 0 {
-			s += fmt.Sprintf("s%d{%s}", q.SMin, l(q.Should))
-		}
-		if len(q.MustNot) > 0 {
-			s += "n{" + l(q.MustNot) + "}"
-		}
-		return s + ")"
-	}
-	return "?"
 }
 
 // pathRel summarises which nesting paths a query addresses.
